@@ -131,7 +131,18 @@ pub fn decoding_key(spec: &Value) -> Option<KeyForDecoding> {
         "rsa_components" => {
             let jwk = keys::rsa_jwk();
             let n = crate::indep::b64url_decode(jwk["n"].as_str()?)?;
-            let e = crate::indep::b64url_decode(jwk["e"].as_str()?)?;
+            let mut e = crate::indep::b64url_decode(jwk["e"].as_str()?)?;
+            // "e": the same exponent with leading zero octets (the same key), or another exponent that agrees with it in its
+            // low octets (another key: nothing it is asked to verify was signed for it)
+            match spec["e"].as_str() {
+                Some("padded") => { e.insert(0, 0); e.insert(0, 0); }
+                Some("padded8") => { while e.len() < 9 { e.insert(0, 0); } }
+                Some("high_octet") => { e.insert(0, 1); }                                  // e + 2^24 (65537 has three octets)
+                Some("beyond_u32") => { while e.len() < 4 { e.insert(0, 0); } e.insert(0, 1); }  // e + 2^32
+                Some("beyond_u64") => { while e.len() < 8 { e.insert(0, 0); } e.insert(0, 1); }  // e + 2^64
+                Some("beyond_u128") => { while e.len() < 16 { e.insert(0, 0); } e.insert(0, 3); }
+                _ => {}
+            }
             KeyForDecoding::from_rsa_components(&n, &e).ok()
         }
         "ec" => KeyForDecoding::from_ec_pem(keys::pub_pem(spec["alg"].as_str()?)).ok(),
@@ -571,6 +582,12 @@ pub fn generate_c04(thorough: bool, seed: u64, em: &mut Emitter) {
                 c["tag"] = json!("matrix_rsa_components");
                 em.case("decode", c);
             }
+            for (variant, same_key) in [("padded", true), ("padded8", true), ("high_octet", false), ("beyond_u32", false), ("beyond_u64", false), ("beyond_u128", false)] {
+                let exp = if same_key { "accept" } else { "reject" };
+                let mut c = decode_case(&token, &no_exp(alg), &json!({"kind": "rsa_components", "e": variant}), alg, same_key, exp, exp, true);
+                c["tag"] = json!(format!("rsa_components_exponent_{}", variant));
+                em.case("decode", c);
+            }
         }
         // (c) a public key's PEM bytes used as HMAC secret, under every HMAC policy and the token's own algorithm
         if !alg.starts_with("HS") {
@@ -702,6 +719,8 @@ pub fn generate_c16(thorough: bool, seed: u64, em: &mut Emitter) {
         // header, nothing of the earlier one may survive into the token
         let replaced = r.chance(1, 3);
         let case_only = !replaced && misfit.is_none() && r.chance(1, 3);
+        // ... or issued once under a wholly different header and then given K headers in a row, the last one being the final one
+        let many: Option<usize> = if !replaced && !case_only && misfit.is_none() && r.chance(1, 2) { Some(*r.pick(&[2usize, 16, 17, 255, 256, 257, 512, 65_536])) } else { None };
         let token = catch_unwind(AssertUnwindSafe(|| {
             let mut iss = sdjwt::Issuer::new(json!({"a": 1, "b": "two"})).ok()?;
             iss.disclosable("/a");
@@ -728,6 +747,19 @@ pub fn generate_c16(thorough: bool, seed: u64, em: &mut Emitter) {
                 if first.cty == h.cty { first.cty = h.cty.as_ref().map(|t| t.to_lowercase()); }
                 iss.header(first);
                 let _ = iss.encode(&signing_key(&alg));
+            }
+            if let Some(k) = many {
+                let mut first = Header::new(algorithm(&alg));
+                first.typ = Some("first+jwt".to_string());
+                first.kid = Some("first-key".to_string());
+                first.crit = Some(vec!["first".to_string()]);
+                iss.header(first.clone());
+                let _ = iss.encode(&signing_key(&alg));
+                for j in 0..k - 1 {
+                    let mut between = first.clone();
+                    between.kid = Some(format!("between-{}", j));
+                    iss.header(between);
+                }
             }
             iss.header(h.clone());
             iss.encode(&signing_key(misfit.unwrap_or(&alg))).ok()
@@ -760,6 +792,9 @@ pub fn generate_c16(thorough: bool, seed: u64, em: &mut Emitter) {
         }
         if case_only {
             c["tag"] = json!("header_replaced_after_encode_case_only");
+        }
+        if let Some(k) = many {
+            c["tag"] = json!(format!("header_replaced_{}_times_after_encode", k));
         }
         em.case("decode", c);
     }
